@@ -379,7 +379,10 @@ func (u *uploader) UploadPart(bucket, object string, id UploadID, partNumber int
 		return "", ErrInvalidPart
 	}
 	body, err := io.ReadAll(input)
-	if err != nil {
+	if err == io.ErrUnexpectedEOF {
+		// the framing of an aws-chunked body ended early
+		return "", ErrIncompleteBody
+	} else if err != nil {
 		return "", err
 	}
 	if len(body) != int(contentLength) {
